@@ -233,7 +233,7 @@ structure Params where
   nodePubkey : Bytes
 deriving DecidableEq, Repr
 
-def base : Nat := Gen.baseSupplyUnit
+def base : Nat := Gen.digestBaseSupplyUnit
 def two64 : Nat := 18446744073709551616
 
 /-- value of a right-hand side of the literals; `none` = SubmitOrder returns an error before sending
